@@ -1,4 +1,6 @@
-(* C15, layer 3: the invariant of Canonical's loop and canonical_legal_images.
+(* C15, layer 3: the invariant of Canonical's loop and canonical_legal_images, generic in the invariant BI of the replay boards
+   under which Position.Move is a rules move (instances in Canon5.v: C01's invariant with at most 64 pieces in the game; C01's
+   invariant with the exact limit `no stack above 64` SC on the boards reached).
    Invariant after the moves `done`: the eight replay boards are the eight images of board 0; tfn (= compose rots) is one of the
    eight symmetries, and board 0 is the image under it of the position the ORIGINAL game has reached; board 0's move list
    replays (by the rules) to board 0. *)
@@ -38,29 +40,37 @@ Let d := cstate0 sz.
 Lemma Hs : size_ok s.
 Proof. unfold size_ok, s. lia. Qed.
 
+(* BI: an invariant of positions under which a successful Position.Move whose result satisfies the side condition SC
+   is the rules' move, and which holds again *)
+Variable BI SC : position -> Prop.
+Hypothesis BI_move : forall p m q, BI p -> cmv p m = Ok q -> SC q -> rules_move (abs p) (raw m) = Some (abs q) /\ BI q.
+Hypothesis BI_new : BI (new_pos gen_basis sz).
+
 Definition agree (t : symfn) (j : nat) : Prop :=
   forall x y, (-80 <= x <= 80)%Z -> (-80 <= y <= 80)%Z -> t x y = sym (Z.of_nat s) j (x, y).
 
 Definition board0 (boards : list cstate) : cstate := hd d boards.
 Definition A_of (boards : list cstate) : apos := abs (cp (board0 boards)).
 
-(* what the theorem assumes about the positions the run touches (all eight boards before each move):
-   - they satisfy the representation invariant under which C01 proves Position.Move correct (c01_inv; preserved by Move except for the
-     height limit 64 - size of the bit representation, see C01);
-   - NoCollision: a board whose hash equals board 0's hash (the comparison Canonical makes) shows the same position as board 0 *)
-Definition good_state (st : cst) : Prop :=
+(* NoCollision: in the state (eight boards) the loop has reached BEFORE a move, a board whose hash equals board 0's hash
+   - the comparison Canonical makes - shows the same position as board 0 *)
+Definition nocoll_state (st : cst) : Prop :=
   let boards := fst (fst st) in
-  (forall b, In b boards -> c01_inv (cp b)) /\
-  (forall b, In b boards -> hash_of (cp b) = hash_of (cp (board0 boards)) -> abs (cp b) = A_of boards).
+  forall b, In b boards -> hash_of (cp b) = hash_of (cp (board0 boards)) -> abs (cp b) = A_of boards.
+Definition nocoll_trace (ms : list rmove) : Prop :=
+  forall k st, k < length ms -> fold_left (cstep sz) (firstn k ms) (cinit sz) = Ok st -> nocoll_state st.
 
-Definition trace_ok (ms : list rmove) : Prop :=
-  forall k st, k < length ms -> fold_left (cstep sz) (firstn k ms) (cinit sz) = Ok st -> good_state st.
+(* the side condition on every board the loop produces *)
+Definition sc_state (st : cst) : Prop := forall b, In b (fst (fst st)) -> SC (cp b).
+Definition sc_trace (ms : list rmove) : Prop :=
+  forall k st, 0 < k <= length ms -> fold_left (cstep sz) (firstn k ms) (cinit sz) = Ok st -> sc_state st.
 
 Definition images_at (done cs : list rmove) (k : nat) : Prop :=
   exists j A B, j < 8 /\ play (P0 sz) (map raw (firstn k cs)) = Some A /\ play (P0 sz) (map raw (firstn k done)) = Some B /\ A = img j B.
 
 Record cinv (done : list rmove) (st : cst) : Prop := {
   ci_len : length (fst (fst st)) = 8;
+  ci_bi : forall b, In b (fst (fst st)) -> BI (cp b);
   ci_img : forall i, i < 8 -> abs (cp (nth i (fst (fst st)) d)) = img i (A_of (fst (fst st)));
   ci_tfn : exists j B, j < 8 /\ agree (snd st) j /\ (forall x y, compose (snd (fst st)) x y = snd st x y) /\
              play (P0 sz) (map raw done) = Some B /\ well_shaped B /\ Rules.n B = s /\ A_of (fst (fst st)) = img j B;
@@ -73,6 +83,7 @@ Proof.
   assert (HA : A_of (repeat (cstate0 sz) 8) = P0 sz) by reflexivity.
   constructor; cbn [fst snd].
   - reflexivity.
+  - intros b Hb. apply repeat_spec in Hb. subst b. exact BI_new.
   - intros i Hi. rewrite HA. rewrite start_symmetric by assumption.
     fold d. rewrite nth_repeat_nil. reflexivity.
   - exists 0, (P0 sz). split; [lia|]. split; [intros x y _ _; reflexivity|]. split; [intros x y; reflexivity|].
@@ -93,11 +104,11 @@ Lemma hd_nth0 {A} (l : list A) x : hd x l = nth 0 l x.
 Proof. destruct l; reflexivity. Qed.
 
 Lemma cstep_inv done boards rots tfn m st' :
-  cinv done (boards, rots, tfn) -> good_state (boards, rots, tfn) -> canon_input m ->
-  cstep sz (Ok (boards, rots, tfn)) m = Ok st' -> cinv (done ++ [m]) st'.
+  cinv done (boards, rots, tfn) -> nocoll_state (boards, rots, tfn) -> canon_input m ->
+  cstep sz (Ok (boards, rots, tfn)) m = Ok st' -> sc_state st' -> cinv (done ++ [m]) st'.
 Proof.
-  intros [Hlen Himg (j & B & Hj & Hag & Hcomp & HplayB & HwB & HnB & HA) [HplayA HlenA] Hpref] [Hc01 Hnc] [Hr Hml] Hstep.
-  cbn [fst snd] in *. assert (Hs := Hs).
+  intros [Hlen Hbi Himg (j & B & Hj & Hag & Hcomp & HplayB & HwB & HnB & HA) [HplayA HlenA] Hpref] Hnc [Hr Hml] Hstep Hsc.
+  unfold nocoll_state in Hnc. cbn [fst snd] in *. assert (Hs := Hs).
   unfold cstep in Hstep. rewrite <- (N_nat_Z sz) in Hstep. fold s in Hstep.
   (* 1. the move in canonical coordinates *)
   assert (Em1 : transform_move tfn m = Ok (tmr j s m)).
@@ -122,6 +133,7 @@ Proof.
             cinv (done ++ [m]) st').
   { clear Hstep Hcase best rot. intros j' rots' tfn' Hj' HA' Hag' Hcomp' Hstep.
     destruct (all_res _) as [bs| |] eqn:Eall; try discriminate. inversion Hstep; subst st'; clear Hstep.
+    unfold sc_state in Hsc. cbn [fst snd] in Hsc.
     set (m2 := tmr j' s m) in *.
     assert (Hm2r : inrange 27 m2) by (apply (tmr_inrange j' s m 20); try assumption; lia).
     assert (Hm2l : movelike m2) by now apply tmr_movelike.
@@ -130,9 +142,15 @@ Proof.
     assert (HnA : Rules.n (A_of boards) = s) by (rewrite HA'; exact HnB).
     assert (HwA : well_shaped (A_of boards)) by (rewrite HA'; now apply img_well_shaped).
     assert (Hin : forall i, i < 8 -> In (nth i boards d) boards) by (intros i Hi; apply nth_In; lia).
+    (* every board: the code's move is the rules' move, and the invariant holds again *)
+    assert (Hq' : forall i, i < 8 -> exists q, nth i bs d = {| cp := q; cms := cms (nth i boards d) ++ [tmr i s m2] |} /\
+                    rules_move (abs (cp (nth i boards d))) (raw (tmr i s m2)) = Some (abs q) /\ BI q).
+    { intros i Hi. destruct (Hq i Hi) as (q & Hmv & Enth). exists q. split; [exact Enth|].
+      apply (BI_move _ _ _ (Hbi _ (Hin i Hi)) Hmv).
+      assert (Hsq := Hsc (nth i bs d) ltac:(apply nth_In; lia)). rewrite Enth in Hsq. exact Hsq. }
+    clear Hq.
     (* board 0 *)
-    destruct (Hq 0 ltac:(lia)) as (q0 & Hmv0 & Enth0).
-    assert (R0' := cmv_ok_refines _ _ _ (Hc01 _ (Hin 0 ltac:(lia))) Hmv0).
+    destruct (Hq' 0 ltac:(lia)) as (q0 & Enth0 & R0' & _).
     rewrite <- hd_nth0 in R0'. fold (board0 boards) in R0'. fold (A_of boards) in R0'.
     assert (R0 := R0'). rewrite raw_tmr in R0. rewrite <- HnA in R0. rewrite (rules_move_tm0 _ _ HwA) in R0.
     (* the original game *)
@@ -143,8 +161,9 @@ Proof.
     assert (HA2 : A_of bs = abs q0) by (unfold A_of; rewrite Hbs0; reflexivity).
     constructor; cbn [fst snd].
     - exact Hlbs.
-    - intros i Hi. destruct (Hq i Hi) as (qi & Hmvi & Enthi). rewrite Enthi. cbn [cp]. rewrite HA2.
-      assert (Ri := cmv_ok_refines _ _ _ (Hc01 _ (Hin i Hi)) Hmvi).
+    - intros b Hb. destruct (In_nth _ _ d Hb) as (i & Hi & <-). rewrite Hlbs in Hi.
+      destruct (Hq' i Hi) as (qi & Enthi & _ & Hbq). rewrite Enthi. exact Hbq.
+    - intros i Hi. destruct (Hq' i Hi) as (qi & Enthi & Ri & _). rewrite Enthi. cbn [cp]. rewrite HA2.
       rewrite (Himg i Hi), raw_tmr, <- HnA in Ri. rewrite (rules_equivariant i _ (raw m2) Hi HwA), R0 in Ri.
       cbn [option_map] in Ri. apply some_inj in Ri. symmetry. exact Ri.
     - exists j', B'. split; [exact Hj'|]. split; [exact Hag'|]. split; [exact Hcomp'|].
@@ -179,35 +198,35 @@ Proof.
     + reflexivity.
 Qed.
 
-Lemma canonical_inv : forall ms, Forall canon_input ms -> trace_ok ms ->
+Lemma canonical_inv : forall ms, Forall canon_input ms -> nocoll_trace ms -> sc_trace ms ->
   forall st, fold_left (cstep sz) ms (cinit sz) = Ok st -> cinv ms st.
 Proof.
-  induction ms as [|m ms IH] using rev_ind; intros Hall Htr st Hf.
+  induction ms as [|m ms IH] using rev_ind; intros Hall Hnc Hsc st Hf.
   - apply cinv_init. exact Hf.
-  - rewrite fold_cstep_app in Hf. destruct (cstep_not_ok _ _ _ _ Hf) as [[[boards rots] tfn] E0].
+  - assert (Hf' := Hf). rewrite fold_cstep_app in Hf. destruct (cstep_not_ok _ _ _ _ Hf) as [[[boards rots] tfn] E0].
     apply Forall_app in Hall. destruct Hall as [Hall Hm]. inversion Hm as [|? ? Hm' _]; subst.
-    assert (Htr' : trace_ok ms).
-    { intros k st0 Hk Hf0. apply (Htr k st0); [rewrite app_length; cbn; lia|]. now rewrite firstn_app_le by lia. }
-    assert (Hinv := IH Hall Htr' _ E0).
-    assert (Hgood : good_state (boards, rots, tfn)).
-    { apply (Htr (length ms)); [rewrite app_length; cbn; lia|]. rewrite firstn_app_le by lia. now rewrite firstn_all. }
-    rewrite E0 in Hf. exact (cstep_inv ms boards rots tfn m st Hinv Hgood Hm' Hf).
+    assert (Hnc' : nocoll_trace ms).
+    { intros k st0 Hk Hf0. apply (Hnc k st0); [rewrite app_length; cbn; lia|]. now rewrite firstn_app_le by lia. }
+    assert (Hsc' : sc_trace ms).
+    { intros k st0 Hk Hf0. apply (Hsc k st0); [rewrite app_length; cbn; lia|]. now rewrite firstn_app_le by lia. }
+    assert (Hinv := IH Hall Hnc' Hsc' _ E0).
+    assert (Hgood : nocoll_state (boards, rots, tfn)).
+    { apply (Hnc (length ms)); [rewrite app_length; cbn; lia|]. rewrite firstn_app_le by lia. now rewrite firstn_all. }
+    assert (Hscst : sc_state st).
+    { apply (Hsc (length (ms ++ [m]))); [rewrite app_length; cbn; lia|]. now rewrite firstn_all. }
+    rewrite E0 in Hf. exact (cstep_inv ms boards rots tfn m st Hinv Hgood Hm' Hf Hscst).
 Qed.
 
-(* DESIGN 5.15, canonical_legal_images: the canonical game has the length of the input, and for every k the first k moves of both are
-   legal games (by the rules of Rules.v, from the start position of the model), the canonical one ending in an image of the other.
-   PARTIAL in two respects, both visible as hypotheses:
-   (1) canon_input bounds the coordinates by 20 instead of the whole int8 range;
-   (2) trace_ok assumes the C01 representation invariant of the replay boards instead of deriving it from its preservation by Move
-       (its NoCollision half is the hypothesis the design asks for). *)
-Theorem canonical_legal_images_partial : forall ms cs,
-  Forall canon_input ms -> trace_ok ms -> canonical gen_basis sz ms = Ok cs ->
+(* DESIGN 5.15, canonical_legal_images, generic in BI / SC: the canonical game has the length of the input, and for every k the first k
+   moves of both are legal games (by the rules of Rules.v, from the start position of the model), the canonical one ending in an image of
+   the other. *)
+Theorem canonical_legal_images_gen : forall ms cs,
+  Forall canon_input ms -> nocoll_trace ms -> sc_trace ms -> canonical gen_basis sz ms = Ok cs ->
   length cs = length ms /\ forall k, k <= length ms -> images_at ms cs k.
 Proof.
-  intros ms cs Hall Htr H. rewrite canonical_unfold in H.
+  intros ms cs Hall Hnc Hsc H. rewrite canonical_unfold in H.
   destruct (fold_left (cstep sz) ms (cinit sz)) as [[[boards rots] tfn]| |] eqn:Ef; try discriminate.
   inversion H; subst cs; clear H.
-  destruct (canonical_inv ms Hall Htr _ Ef) as [_ _ _ [_ Hl] Hp]. cbn [fst snd] in *. split; [exact Hl|exact Hp].
+  destruct (canonical_inv ms Hall Hnc Hsc _ Ef) as [_ _ _ _ [_ Hl] Hp]. cbn [fst snd] in *. split; [exact Hl|exact Hp].
 Qed.
 End Canon.
-Print Assumptions canonical_legal_images_partial.
